@@ -39,7 +39,10 @@ void verif_observe(long tag, long value) { std::printf("OBS %ld %ld\n", tag, val
 #include <sys/stat.h>
 static std::string mf_dir() { static std::string d; if (d.empty()) { char t[] = "/tmp/verif_mf_XXXXXX"; d = mkdtemp(t); } return d; }
 static int mf_count = 0;
-const char* verif_memfile_path(long fid) { static std::string p[64]; p[fid % 64] = mf_dir() + "/mf_" + std::to_string(fid); return p[fid % 64].c_str(); }
+static std::string mf_names[64];
+const char* verif_memfile_path(long fid) { static std::string p[64]; p[fid % 64] = mf_names[fid % 64].empty() ? mf_dir() + "/mf_" + std::to_string(fid) : mf_names[fid % 64]; return p[fid % 64].c_str(); }
+// a named file: the harness refers to it by a relative name, so the process moves into the scratch directory
+void verif_memfile_name(long fid, const char* name) { if (chdir(mf_dir().c_str()) != 0) {} mf_names[fid % 64] = name; }
 static std::string mf_read(long fid) { std::ifstream f(verif_memfile_path(fid), std::ios::binary); return std::string((std::istreambuf_iterator<char>(f)), std::istreambuf_iterator<char>()); }
 static void mf_write(long fid, const std::string& d) { std::ofstream f(verif_memfile_path(fid), std::ios::binary | std::ios::trunc); f.write(d.data(), d.size()); }
 std::fstream* verif_memfile(unsigned long n) {
